@@ -51,6 +51,11 @@ func (c *cpuCase) normalise() {
 // states carry an OnWDM observer that calls TriggerIRQ during the Step.
 var cpuDirtIRQ bool
 
+// cpuChargeMem: set by C02: in the start states with the $A5 stale pattern the memory objects charge the
+// interpreter one cycle per access (slow memory adding wait states to the exported per-step counter); both
+// interpreters must account for them alike.
+var cpuChargeMem bool
+
 func mkRaw(s ref65816.State, stale int, intr byte) cpuh.Raw {
 	r := cpuh.Raw{PC: s.PC, SP: s.S, RD: s.D, RDBR: s.DBR, RK: s.K, P: s.P, Interrupt: intr, Stopped: s.Stopped}
 	if s.E {
@@ -62,6 +67,7 @@ func mkRaw(s ref65816.State, stale int, intr byte) cpuh.Raw {
 			r.Dirt = 2 // ... and with an OnWDM observer that raises an IRQ while the Step is running
 		}
 		r.AllCycles = ^uint64(0) - 2 // ... and from a running cycle total that is about to wrap
+		r.Charge = cpuChargeMem && stale == 2
 	}
 	st16 := []uint16{0, 0xFFFF, 0xA5A5}[stale]
 	st8 := byte(st16)
